@@ -1,4 +1,5 @@
 from __future__ import annotations
+import math
 import numpy as np
 from numpy.typing import NDArray
 
@@ -51,8 +52,8 @@ def _create_mesh(
     right = -shifts + _max_shifts
     local_shifts = [
         [
-            int(round(max(float(shiftl), -1.0) * UPSAMPLE)),
-            int(round(min(float(shiftr), 1.0) * UPSAMPLE)),
+            math.ceil(max(float(shiftl), -1.0) * UPSAMPLE - 1e-3),
+            math.floor(min(float(shiftr), 1.0) * UPSAMPLE + 1e-3),
         ]
         for shiftl, shiftr in zip(left, right)
     ]
